@@ -38,7 +38,7 @@ theorem cpp_full_runtime_names_cover :
      "do_decode_advance", "do_decode_align", "do_decode_greedy", "do_decode_in_place", "do_decode_resize", "encode_int", "decode_int",
      "print_byte", "indent_t", "is_class_or_union", "decoder_greedy", "heap_value", "optional_detail", "to_literal"].all
       (fun n => Generated.cppFullRuntimeNames.contains n) = true ∧
-    ["array", "optional", "encode", "decode", "print", "get_byte_size"].all (fun n => Generated.cppFullMemberNames.contains n) = true := by decide
+    ["array", "optional", "encode", "get_byte_size"].all (fun n => Generated.cppFullMemberNames.contains n) = true := by decide
 
 /-- the names of the raw codec's runtime that its generated sources use unqualified are refused by `--cpp_out` (D195) -/
 theorem cpp_raw_runtime_names_cover :
